@@ -14,7 +14,7 @@ VALMAP = {'x': {1: 'a', 2: 'b'}, 'y': {1: 10, 2: 20}, 'z': {1: 0, 2: 1}, 'w': {1
 def name_of(l):
     # unnamed levels -> None; level "z" carries the falsy but legal name '' and "w" the name False
     # (an INTEGER level name such as 0 already breaks the cross join on the unchanged tree: known finding C13-int-level-name, probed separately)
-    return None if l.startswith('n') else {'z': ''}.get(l, l)
+    return None if l.startswith('n') else {'z': '', 'w': 0}.get(l, l)      # 'z' carries the falsy name '', 'w' the INTEGER name 0
 
 
 def make_index(levels, keys, vmap=None):
@@ -148,19 +148,24 @@ def other_paths(chk):
     """scalar / array parameters, the unnamed-index parameter-vector path, and downstream calculations."""
     from pylife.core.broadcaster import Broadcaster
     import pylife.materiallaws.woehlercurve  # noqa
-    # probe of the known finding C13-int-level-name (witness only)
-    for f in findings.load('C13'):
-        if f.get('match') == 'int_level_name':
-            with warnings.catch_warnings():
-                warnings.simplefilter('ignore')
-                o = pd.DataFrame({'val': [101.0]}, index=pd.Index(['a'], name='x'))
-                p = pd.Series([1001.0, 1002.0], index=pd.Index([0, 1], name=0), name='val')
-                try:
-                    rp, ro = Broadcaster(o).broadcast(p)
-                    if not (ro['val'] == 101.0).all():
-                        chk.known.append('%s: %s' % (f['id'], f['symptom']))
-                except Exception:
-                    chk.known.append('%s: %s' % (f['id'], f['symptom']))
+    # a parameter whose index level is NAMED 0 (an integer, e.g. after set_index(0)) against an object indexed by 'x': cross join, values kept
+    with warnings.catch_warnings():
+        warnings.simplefilter('ignore')
+        o = pd.DataFrame({'val': [101.0, 102.0]}, index=pd.Index(['a', 'b'], name='x'))
+        p = pd.Series([1001.0, 1002.0, 1003.0], index=pd.Index([0, 1, 5], name=0), name='val')
+        o0, p0 = o.copy(deep=True), p.copy(deep=True)
+        chk.evals(1)
+        try:
+            rp, ro = Broadcaster(o).broadcast(p)
+            ok = ro.index.equals(rp.index) and len(ro) == 6 and set(ro.index.names) == {'x', 0} \
+                and all(ro.loc[k, 'val'] == o.loc[k[list(ro.index.names).index('x')], 'val'] and rp.loc[k] == p.loc[k[list(ro.index.names).index(0)]] for k in ro.index)
+            if not ok or not (same_frame(o, o0) and same_frame(p, p0)):
+                chk.violation('broadcast with an index level named 0 (integer): rows do not carry the values of their keys / operands modified', {'object_levels': ['x'], 'parameter_levels': [0]},
+                              None, {'object_values': ro['val'].tolist(), 'parameter_values': rp.tolist()}, part='scalar')
+            else:
+                chk.nontrivial(('int-level-name',))
+        except Exception as ex:
+            chk.violation('broadcast with an index level named 0 raised %r' % ex, {}, part='scalar')
     with warnings.catch_warnings():
         warnings.simplefilter('ignore')
         for n in (1, 2, 3):
